@@ -50,6 +50,7 @@ def whole_column(ctx, repo):
         ctx.violation(rid, key, f"src/_gettsim/interface.py:{ln}", msg)
     ctx.floor("W2", 15)
     group_id_arithmetic(ctx, repo, "W5")
+    index_spaces(ctx, repo, "IX")
 
 
 def group_id_arithmetic(ctx, repo, rid):
@@ -68,3 +69,50 @@ def group_id_arithmetic(ctx, repo, rid):
         from staticlib.common import AnalysisError
 
         raise AnalysisError(f"only {n} grouping functions found")
+
+
+_IX_POSITIVE = """
+def wrong(group_id, column):
+    order = numpy.argsort(group_id)
+    first = numpy.r_[True, numpy.diff(group_id[order]) > 0]
+    labels = numpy.cumsum(first) - 1
+    return labels[order]
+"""
+_IX_NEGATIVE = """
+def right(group_id, column):
+    order = numpy.argsort(group_id)
+    first = numpy.r_[True, numpy.diff(group_id[order]) > 0]
+    labels = numpy.cumsum(first) - 1
+    out = numpy.empty_like(labels)
+    out[order] = labels
+    inverse = numpy.argsort(order)
+    u, first_row, inv = numpy.unique(group_id, return_index=True, return_inverse=True)
+    return out + labels[inverse] + column[first_row][inv]
+"""
+
+
+def index_spaces(ctx, repo, rid):
+    """IX: index-space typing of the whole-column kernels and their helpers (see rules/_idxspace.py)"""
+    import ast
+
+    from staticlib.common import AnalysisError
+
+    from ._idxspace import Typer, index_space_findings
+
+    ctx.rule(rid, "in whole-column code an array laid out in sorted order / by unique values / by rows is only indexed with positions of that same layout: results computed in sorted order return to the rows through the inverse permutation (out[order] = ..., [argsort(order)]), never through the permutation itself")
+    # the typer must still tell the two textbook spellings apart (expected count on the tree is zero)
+    pos = Typer(None, ast.parse(_IX_POSITIVE).body[0]).run()
+    neg = Typer(None, ast.parse(_IX_NEGATIVE).body[0]).run()
+    if len(pos) != 1 or neg:
+        raise AnalysisError(f"index-space typer self-check failed (positive example: {len(pos)} findings, negative example: {len(neg)})")
+    nf = nchecked = 0
+    for mod, fname, fs, checked in index_space_findings(repo):
+        nf += 1
+        nchecked += checked
+        ctx.ob(rid, ok=not fs, distinct=(mod.rel, fname))
+        for key, ln, msg in fs:
+            ctx.violation(rid, f"{mod.rel}:{key}", f"src/_gettsim/{mod.rel}:{ln} {fname}", msg)
+    ctx.extra_cov["index_space_functions"] = nf
+    ctx.extra_cov["index_space_sites_checked"] = nchecked
+    if nf < 20:
+        raise AnalysisError(f"only {nf} whole-column functions typed")
